@@ -22,8 +22,14 @@ from . import core
 
 MOD = "verifcases"
 
-VO_SRC = open(os.path.join(os.path.dirname(os.path.abspath(__file__)), "vo.go.txt")).read() if os.path.exists(
-    os.path.join(os.path.dirname(os.path.abspath(__file__)), "vo.go.txt")) else ""
+def vo_sources():
+    """every tools/vlib/vo*.go.txt becomes a file of package verifcases/vo (one file per area, so areas do not collide)"""
+    d = os.path.dirname(os.path.abspath(__file__))
+    out = {}
+    for fn in sorted(os.listdir(d)):
+        if fn.startswith("vo") and fn.endswith(".go.txt"):
+            out[fn[:-4]] = open(os.path.join(d, fn)).read()
+    return out
 
 
 def snapshot(d):
@@ -50,8 +56,9 @@ class Batch:
                     "replace github.com/lopolopen/shoot => %s\n" % (MOD, core.REPO))
         shutil.copyfile(os.path.join(core.REPO, "go.sum"), os.path.join(self.root, "go.sum"))
         os.makedirs(os.path.join(self.root, "vo"))
-        with open(os.path.join(self.root, "vo", "vo.go"), "w") as f:
-            f.write(VO_SRC)
+        for fn, src in vo_sources().items():
+            with open(os.path.join(self.root, "vo", fn), "w") as f:
+                f.write(src)
         self.cases = []
 
     def cdir(self, case):
